@@ -387,12 +387,19 @@ const olderRev, newerRev = "2019-03-03", "2021-05-05"
 // are pinned, so that the trees of all latest revisions equal those of the
 // scenario without the older revision.
 func addOlderRevisionOpt(rt *tape.Tape, s *model.Scenario, den int, same bool) string {
+	return addOlderRevisionInc(rt, s, den, same, false)
+}
+
+// addOlderRevisionInc is addOlderRevisionOpt; with includesToo a module that
+// includes submodules may be chosen as well (the input class of open finding
+// C05-tworev-sub).
+func addOlderRevisionInc(rt *tape.Tape, s *model.Scenario, den int, same, includesToo bool) string {
 	if !rt.Chance(1, den) {
 		return ""
 	}
 	var cand []*model.Mod
 	for _, m := range s.Mods {
-		if !m.IsSub() && len(m.Includes) == 0 && len(m.Deviations) == 0 && len(m.Revs) == 0 && m.Name != model.PosixModule {
+		if !m.IsSub() && (len(m.Includes) == 0 || includesToo) && len(m.Deviations) == 0 && len(m.Revs) == 0 && m.Name != model.PosixModule {
 			cand = append(cand, m)
 		}
 	}
@@ -502,3 +509,42 @@ func latestOnly(s *model.Scenario) *model.Scenario {
 	n.Mods = mods
 	return n
 }
+
+var (
+	reModuleHead = regexp.MustCompile(`(?m)^\s*module\s+([^\s{;]+)`)
+	reInclude    = regexp.MustCompile(`(?m)^\s*include\s+([^\s{;]+)`)
+)
+
+// twoRevsOneSub reports whether two of the texts are modules of the same name
+// that include the same submodule: the input class of open finding
+// C05-tworev-sub (the submodule's nodes land in whichever revision is
+// converted first).
+func twoRevsOneSub(texts map[string]string) bool {
+	incs := map[string]map[string]int{}
+	for _, t := range texts {
+		m := reModuleHead.FindStringSubmatch(t)
+		if m == nil {
+			continue
+		}
+		if incs[m[1]] == nil {
+			incs[m[1]] = map[string]int{}
+		}
+		seen := map[string]bool{}
+		for _, i := range reInclude.FindAllStringSubmatch(t, -1) {
+			if !seen[i[1]] {
+				seen[i[1]] = true
+				incs[m[1]][i[1]]++
+			}
+		}
+	}
+	for _, subs := range incs {
+		for _, n := range subs {
+			if n > 1 {
+				return true
+			}
+		}
+	}
+	return false
+}
+
+const inputTwoRevsOneSub = "input:two-revisions-including-one-submodule"
